@@ -32,6 +32,9 @@ pub enum Step {
     Head { b: usize, k: usize },
     GetRange { b: usize, k: usize, range: String },
     Delete { b: usize, k: usize },
+    /// DeleteObjects: a batch of keys of the universe; optionally a key the backend refuses (not a relative path inside
+    /// the bucket) at position `refused_at` of the batch
+    DeleteMany { b: usize, ks: Vec<usize>, refused_at: Option<usize>, refused_key: String },
     Copy { sb: usize, sk: usize, db: usize, dk: usize },
     List {
         b: usize,
@@ -378,6 +381,35 @@ async fn exec(sys: &Sys, m: &mut Model, step: &Step, r: &mut Report) -> Option<(
             r.held(format!("Delete/{sc}"));
             None
         }
+        Step::DeleteMany { b, ks, refused_at, refused_key } => {
+            use aws_sdk_s3::types::{Delete, ObjectIdentifier};
+            let mut ids: Vec<ObjectIdentifier> = ks.iter().filter_map(|k| ObjectIdentifier::builder().key(kn(*k)).build().ok()).collect();
+            if let Some(p) = refused_at {
+                if let Ok(o) = ObjectIdentifier::builder().key(refused_key.clone()).build() {
+                    ids.insert((*p).min(ids.len()), o);
+                }
+            }
+            let Ok(del) = Delete::builder().set_objects(Some(ids)).build() else { return None };
+            let res = c.delete_objects().bucket(bn(*b)).delete(del).send().await;
+            match res {
+                // a refused request changes nothing: the reads that follow judge it against the unchanged model
+                Err(_) => r.held(format!("DeleteMany/refused/{}", if refused_at.is_some() { "with-a-refused-key" } else { "plain" })),
+                Ok(out) => {
+                    let failed: Vec<String> = out.errors().iter().filter_map(|e| e.key().map(str::to_owned)).collect();
+                    for k in ks {
+                        if failed.iter().any(|f| f == kn(*k)) {
+                            continue;
+                        }
+                        m.unknown.remove(&(*b, *k));
+                        if let Some(bk) = m.buckets.get_mut(b) {
+                            bk.remove(k);
+                        }
+                    }
+                    r.held(format!("DeleteMany/answered/{}-keys/{}", ks.len().min(4), if refused_at.is_some() { "with-a-refused-key" } else { "plain" }));
+                }
+            }
+            None
+        }
         Step::Copy { sb, sk, db, dk } if m.unknown.contains(&(*sb, *sk)) => {
             let source = format!("{}/{}", bn(*sb), pct_encode(kn(*sk), true));
             let res = c.copy_object().bucket(bn(*db)).key(kn(*dk)).copy_source(source).send().await;
@@ -627,7 +659,13 @@ fn gen_history(g: &mut Rng, len: usize, allow_big: bool) -> Vec<Step> {
                 };
                 Step::GetRange { b, k, range }
             }
-            55..=62 => Step::Delete { b, k },
+            55..=59 => Step::Delete { b, k },
+            60..=62 => {
+                let n = 1 + g.usize_below(4);
+                let ks: Vec<usize> = (0..n).map(|_| g.usize_below(KEYS.len())).collect();
+                let refused = g.chance(1, 2);
+                Step::DeleteMany { b, ks, refused_at: if refused { Some(g.usize_below(n + 1)) } else { None }, refused_key: (*g.pick(&["../outside", "/abs/path", "./dot", "a/../../b", ".."])).to_owned() }
+            }
             63..=72 => Step::Copy { sb: g.usize_below(nb), sk: g.usize_below(KEYS.len()), db: b, dk: k },
             73..=80 => Step::List {
                 b,
